@@ -18,21 +18,38 @@ TRUSTED = [
 ASSUMPTIONS = [
     "model validated against the implementation by execution on generated universes (same client table on both sides), "
     "not verified against the Go source",
-    "node identifiers are abstracted: the model names graph nodes by their version key (the resolver keeps one node per version key)",
-    "single registry: a client answer carrying a registries attribute is outside the modelled fragment",
-    "sort.Slice is modelled as a stable insertion sort, exact for at most 12 versions per package",
+    "node identifiers are abstracted: the model names graph nodes by their version key (the resolver keeps one node per "
+    "version key; theorem C07_one_version_partial proves NoDup of the node list)",
+    "single registry: a client answer carrying a registries attribute is outside the modelled fragment (model stops with EOutside)",
+    "sort.Slice inside resolve.SortVersions is modelled as the stable insertion sort Go uses for at most 12 elements; "
+    "longer version lists are outside the fragment",
+    "theorems that mention the client assume only what a Go client cannot violate: Version answers carry the key asked for "
+    "(version_faithful), Versions answers the package asked for (versions_faithful), and no client error is one of the "
+    "resolver's private sentinels errNoMatch / errIncompatible (version_errs_sane, client_sane)",
+    "theorems are stated for resolutions that return a graph (resolve fuel root = Ok g); no fuel bound is proved "
+    "(an arbitrary client can return infinitely many distinct versions)",
 ]
 
 MANIFEST = dict(
     category="proof",
-    text=("Executable Gallina model of maven/resolve.go (BFS pass, findMatch, retry loop) parametric in the client and in the "
-          "semver oracles; theorems for every client and root: range edges inside their range, root-only scopes, war/ear/rar not "
-          "traversed, exclusions along the creating path, management override, one node created per artifact key, nearest-wins on a "
-          "single pass, no-match reported, retry monotone; the unrestricted one-version and nearest clauses are refuted by witnesses "
-          "(known findings). Tied to the code by differential execution on recorded client tables; all clauses also evaluated "
-          "directly on the Go graphs."),
-    note=("Trusted: Coq kernel (+vm_compute), gotables, extraction and driver.ml, Go harness, python generator/oracle. The model is "
-          "hand-written and validated by execution on every run. Node ids abstracted to version keys; registries outside the fragment."),
+    text=("Executable Gallina model of maven/resolve.go (BFS pass with requirements/resolvedPackages/concreteVersions/nodes/"
+          "management/exclusions, findMatch with soft and hard requirements, retry loop with the regenerated maxRetries) parametric "
+          "in the client and in the semver oracles. Proved for EVERY client, root and fuel with a returned graph: range edges lie "
+          "inside their range; test/optional/provided only from the root; nodes created through war/ear/rar have no outgoing edge; "
+          "exclusion sets are the ones accumulated along the creating path and no edge reaches an excluded name; the root's "
+          "management overrides every transitive declaration; every edge/node error is a findMatch answer and every kept "
+          "declaration of every traversed node is represented (no-match reported); a pass only appends requirements, an "
+          "incompatible pass strictly lengthens a list, resolve returns the graph of one pass. One-version and nearest-wins are "
+          "proved in restricted form (edges not made through the shared-node shortcut; single pass) and REFUTED in full by two "
+          "witnesses that are also Go runs (known findings F-C07-1, F-C07-2). Tied to the code by differential execution of the "
+          "extracted model and the real resolver on the same recorded client table; every clause is also evaluated directly on "
+          "the Go graphs (direct oracle with shrinking)."),
+    note=("Trusted: Coq 8.16.1 kernel (+vm_compute), gotables, extraction (ExtrOcamlBasic) and driver.ml, the Go harness "
+          "(recording client, table client), python generator/oracle. The Gallina model is hand-written and validated against the "
+          "implementation on every run, not verified against the Go source. Node ids abstracted to version keys; registries and "
+          "version lists above 12 elements outside the fragment; semver answers are oracle tables computed by the Go code itself. "
+          "OPEN findings: F-C07-1 (two versions of one artifact through the shared-node shortcut), F-C07-2 (stale requirements "
+          "of abandoned passes break nearest-wins)."),
     technique="Rocq proof over a hand-written model parametric in the client + differential correspondence + direct oracle",
     design="8 C07")
 
@@ -619,6 +636,27 @@ def check_known(ctx):
             ctx.count("known_witness_reproduced:" + k["id"])
 
 
+def testdata_universes(ctx):
+    """the universes of util/resolve/maven/testdata/*.data (schema text), as structured universes"""
+    import glob
+    import os
+    import re
+    texts = []
+    for f in sorted(glob.glob(os.path.join(lib.REPO, "util/resolve/maven/testdata/*.data"))):
+        txt = open(f, encoding="utf-8", errors="replace").read()
+        for m in re.finditer(r"^-- Universe [^\n]*\n(.*?)^-- END", txt, re.S | re.M):
+            texts.append(m.group(1))
+    if not texts:
+        return []
+    out = []
+    for line in ctx.impl("maven_schema", [sx(t.encode()) for t in texts]):
+        r = parse_sx(line)
+        if r[0] == b"ok" and r[1]:
+            # universes of the generator are lists of [name, [[version, deps]...]]
+            out.append([[nm, [[v, [[d[0], d[1], d[2]] for d in deps]] for v, deps in vl]] for nm, vl in r[1]])
+    return out
+
+
 def run(ctx):
     rng = ctx.rng
     if ctx.replay:
@@ -628,6 +666,10 @@ def run(ctx):
                 u, root = parse_sx(inp["arg"])
                 run_universes(ctx, [u], "replay")
     check_known(ctx)
+    tds = testdata_universes(ctx)
+    ctx.count("testdata_universes", len(tds))
+    if tds:
+        run_universes(ctx, tds, "testdata")
     n = ctx.scale(400, 30000)
     batch = 400
     done = 0
